@@ -7,6 +7,7 @@
 
 mod cache;
 mod cached_store;
+#[allow(dead_code)]
 mod dedup;
 mod engine;
 mod router;
@@ -197,6 +198,25 @@ impl QueryNode {
                 .metadata
                 .get_chunks_with_predicates(time_range, &predicates)
                 .await?;
+
+            // While a shard is in the dual-write or backfill phase of a split, the chunks of
+            // its new shards only hold copies of rows that are still stored in the old shard.
+            // Read the originals only: suppressing the copies row by row after the statement
+            // ran cannot repair aggregates and cannot tell a copy from another series that
+            // shares timestamp and metric name.
+            let copy_shards = self
+                .metadata
+                .active_split_new_shards()
+                .await
+                .unwrap_or_default();
+            let chunks: Vec<_> = chunks
+                .into_iter()
+                .filter(|chunk| {
+                    !copy_shards
+                        .iter()
+                        .any(|shard| chunk.chunk_path.contains(shard.as_str()))
+                })
+                .collect();
             let bytes_scanned = chunks.iter().map(|chunk| chunk.size_bytes).sum::<u64>();
 
             // Pin chunks to prevent GC during query execution (RAII guard unpins on drop)
@@ -222,9 +242,6 @@ impl QueryNode {
                     .await?;
             }
 
-            // Check if any shard is in a dual-write split phase (causes duplicate data)
-            let needs_dedup = self.metadata.has_active_split().await.unwrap_or(false);
-
             // Map metadata-selected chunks into the logical `metrics` table used by SQL.
             // Execute query with or without adaptive indexing while holding a stable
             // `metrics` table binding for this request.
@@ -241,14 +258,7 @@ impl QueryNode {
                 })
                 .await?;
 
-            // Deduplicate if any shard is in dual-write phase
-            let deduped = if needs_dedup {
-                dedup::dedup_batches(results)?
-            } else {
-                results
-            };
-
-            Ok((deduped, bytes_scanned))
+            Ok((results, bytes_scanned))
         }
         .await;
 
